@@ -62,6 +62,9 @@ def lean_obligations(ctx, module, theorems, tables=()):
         ctx.oblige("theorem " + module + "." + t, "theorem", good, detail)
         if good:
             ctx.coverage.setdefault("axioms", {})[t] = sorted(a)
+    if ok and not ctx.quick():
+        rok, rout = lean.recheck(module)
+        ctx.oblige("leanchecker re-checks the compiled module " + module, "audit", rok, "" if rok else rout)
     ctx.tables_changed = changed
     return ok and tab_ok
 
